@@ -62,9 +62,13 @@ def run(tw, tier, seed, only=None):
     rng = random.Random(seed)
     fails, cases, nontriv = [], 0, 0
     for n in (1, 2):
-        for G, H in gen.all_small_mol_pairs(n):
-            cases += 1
-            nontriv += check_pair(tw, G, H, fails, {"kind": "exhaustive"})
+        for same in (False, True):
+            for G, H in gen.all_small_mol_pairs(n, same_labels=same):
+                cases += 1
+                nontriv += check_pair(tw, G, H, fails, {"kind": "exhaustive"})
+    for G, H in gen.all_small_mol_pairs(3, elems=("C",), same_labels=True):
+        cases += 1
+        nontriv += check_pair(tw, G, H, fails, {"kind": "exhaustive-3"})
     exhaustive_n = cases
     samples = []
     for i in range(60 if tier == "quick" else 1500):
